@@ -313,6 +313,9 @@ func writeReplay(path, prop string, r *SolveResult) {
 		"property": prop, "obligation": r.Obl.Name, "kind": r.Obl.Kind, "clause": r.Obl.Src, "status": r.Status,
 		"solver": r.Solver, "solver_runs": r.Tried, "solver_output": truncate(r.Output, 20000),
 	}
+	if r.Candidate != "" {
+		m["candidate_model_without_quantified_facts"] = truncate(r.Candidate, 20000)
+	}
 	if r.Obl.Root != nil {
 		var ins []map[string]string
 		for _, in := range r.Obl.Root.inputs {
